@@ -156,3 +156,28 @@ package client
 //@   atcall AESGCMDecrypt requires opensTheReply: len(arg0.([]byte)) == 12 && (forall k int :: 0 <= k && k < 12 ==> arg0.([]byte)[k] == buf[k]) && len(arg1.([]byte)) == 32 && (forall k int :: 0 <= k && k < 32 ==> arg1.([]byte)[k] == sharedSecret[k]) && len(arg2.([]byte)) == 48 && (forall k int :: 0 <= k && k < 48 ==> arg2.([]byte)[k] == buf[12 + k])
 //@   ensures keyIsWhatWasOpened: err == nil ==> succeeded("AESGCMDecrypt") && (forall k int :: 0 <= k && k < 32 && k < len(lastretOf[[]byte]("AESGCMDecrypt")) ==> sessionKey[k] == lastretOf[[]byte]("AESGCMDecrypt")[k])
 //@   flag noframe
+
+// ---------------------------------------------------------------------------------------------
+// client.MakeSession (C01, C06, C15): every underlying connection is dialled to the configured remote
+// address and handshaken with THIS session's authentication data (MakeSession$1, one goroutine per
+// connection); the session is then built with the session id, the encryption method and the
+// ordered/unordered mode of that authentication data, the configured singleplex flag and the TLS-sized
+// frame limit, from the session key the server returned; and exactly the handshaken connections are added.
+// (How the goroutines hand over connections and the key - channel, WaitGroup, atomic.Value - is not modelled.)
+// ---------------------------------------------------------------------------------------------
+//@ func (TransportConfig).CreateTransport
+//@   flag trusted
+//@   ensures ret0 != nil
+//@ func MakeSession$1
+//@   requires dialer != nil
+//@   atcall Dial requires theConfiguredRemote: arg0.(string) == "tcp" && arg1.(string) == connConfig.RemoteAddr
+//@   atcall Handshake requires thisDialAndThisAuth: arg0 == remoteConn && arg1.(AuthInfo).SessionId == authInfo.SessionId && sameSlice(arg1.(AuthInfo).UID, authInfo.UID) && arg1.(AuthInfo).EncryptionMethod == authInfo.EncryptionMethod && arg1.(AuthInfo).Unordered == authInfo.Unordered && arg1.(AuthInfo).ProxyMethod == authInfo.ProxyMethod
+//@   flag noframe
+//@   flag nosafety
+//@ func MakeSession
+//@   requires dialer != nil
+//@   atcall MakeObfuscator requires methodOfTheAuthInfo: arg0.(byte) == authInfo.EncryptionMethod
+//@   atcall MakeSession requires optionsOfThisSession: arg0.(uint32) == authInfo.SessionId && arg1.(mux.SessionConfig).Singleplex == connConfig.Singleplex && arg1.(mux.SessionConfig).Unordered == authInfo.Unordered && arg1.(mux.SessionConfig).MsgOnWireSizeLimit == 16401 && arg1.(mux.SessionConfig).Valve == nil
+//@   loop 1 invariant usable: ghostcall("multiplex.closable", sesh)
+//@   flag noframe
+//@   flag nosafety
